@@ -335,7 +335,13 @@ class ImplWorld:
                         ctx.ev.append(f"P{m}:{i}")
                         W.run_hooks(ctx, hk["p"], holder)
                         if c == "1":
-                            yield 5
+                            # an element the call rejects; of varied shape (hashable or not) where the variant allows
+                            if stars == 1 and i % 2 == 1:
+                                yield [i, 2, 3]
+                            elif stars == 2 and i % 2 == 1:
+                                yield {"zz": i}
+                            else:
+                                yield 5
                         else:
                             yield {0: i, 1: (i, 2), 2: {"x": i, "s": 3}}[stars]
                 meth = {0: p.map, 1: p.starmap, 2: p.doublestarmap}[stars]
